@@ -1,5 +1,6 @@
 import Clemens.Model.Pos
 import Clemens.Gen.Src
+import Clemens.Proofs.TieTac
 /-
 Tie T1 for the move word accessors (`pkg/move/move.go`): generated definitions on `BitVec 32`
 agree with the model accessors on `Nat` words.
@@ -7,32 +8,55 @@ agree with the model accessors on `Nat` words.
 namespace Clemens
 open Src
 
+-- only the fallback `tie_tac` (64 bit positions of a rewritten definition) needs more than the default budget; the `rfl` path does not
+set_option maxHeartbeats 1000000
+
 theorem tie_moveSrc (m : BitVec 32) : (move.Move_GetSourceSquare m).toNat = Move.src m.toNat := by
   have h : m.toNat &&& 63 ≤ 63 := Nat.and_le_right
-  show (BitVec.setWidth 8 (m &&& 63#32)).toNat = m.toNat &&& 63
-  rw [BitVec.toNat_setWidth, BitVec.toNat_and]
-  exact Nat.mod_eq_of_lt (by change (m.toNat &&& 63) < 256; omega)
+  first
+  | tie_rfl
+  | tie_budget 200000 (
+      show (BitVec.setWidth 8 (m &&& 63#32)).toNat = m.toNat &&& 63
+      rw [BitVec.toNat_setWidth, BitVec.toNat_and]
+      exact Nat.mod_eq_of_lt (by change (m.toNat &&& 63) < 256; omega))
+  | tie_tac
 
 theorem tie_moveTgt (m : BitVec 32) : (move.Move_GetTargetSquare m).toNat = Move.tgt m.toNat := by
   have h : (m.toNat >>> 6) &&& 63 ≤ 63 := Nat.and_le_right
-  show (BitVec.setWidth 8 ((m >>> 6) &&& 63#32)).toNat = (m.toNat >>> 6) &&& 63
-  rw [BitVec.toNat_setWidth, BitVec.toNat_and, BitVec.toNat_ushiftRight]
-  exact Nat.mod_eq_of_lt (by change ((m.toNat >>> 6) &&& 63) < 256; omega)
+  first
+  | tie_rfl
+  | tie_budget 200000 (
+      show (BitVec.setWidth 8 ((m >>> 6) &&& 63#32)).toNat = (m.toNat >>> 6) &&& 63
+      rw [BitVec.toNat_setWidth, BitVec.toNat_and, BitVec.toNat_ushiftRight]
+      exact Nat.mod_eq_of_lt (by change ((m.toNat >>> 6) &&& 63) < 256; omega))
+  | tie_tac
 
 theorem tie_moveKind (m : BitVec 32) : move.Move_GetMoveType m = (Move.kind m.toNat : Int) := by
-  show (((m >>> 12) &&& 3#32).toNat : Int) = (((m.toNat >>> 12) &&& 3 : Nat) : Int)
-  rw [BitVec.toNat_and, BitVec.toNat_ushiftRight]
-  rfl
+  first
+  | tie_rfl
+  | tie_budget 200000 (
+      show (((m >>> 12) &&& 3#32).toNat : Int) = (((m.toNat >>> 12) &&& 3 : Nat) : Int)
+      rw [BitVec.toNat_and, BitVec.toNat_ushiftRight]
+      rfl)
+  | tie_tac
 
 theorem tie_movePromo (m : BitVec 32) : (move.Move_GetPromitionPieceType m).toNat = Move.promo m.toNat := by
   have h : (m.toNat >>> 14) &&& 3 ≤ 3 := Nat.and_le_right
-  show ((BitVec.setWidth 8 ((m >>> 14) &&& 3#32)) + 1#8).toNat = ((m.toNat >>> 14) &&& 3) + 1
-  rw [BitVec.toNat_add, BitVec.toNat_setWidth, BitVec.toNat_and, BitVec.toNat_ushiftRight]
-  change ((m.toNat >>> 14 &&& 3) % 256 + 1) % 256 = (m.toNat >>> 14 &&& 3) + 1
-  omega
+  first
+  | tie_rfl
+  | tie_budget 200000 (
+      show ((BitVec.setWidth 8 ((m >>> 14) &&& 3#32)) + 1#8).toNat = ((m.toNat >>> 14) &&& 3) + 1
+      rw [BitVec.toNat_add, BitVec.toNat_setWidth, BitVec.toNat_and, BitVec.toNat_ushiftRight]
+      change ((m.toNat >>> 14 &&& 3) % 256 + 1) % 256 = (m.toNat >>> 14 &&& 3) + 1
+      omega)
+  | tie_tac
 
 theorem tie_moveScore (m : BitVec 32) : (move.Move_GetScore m).toNat = Move.score m.toNat := by
-  show (BitVec.setWidth 16 (m >>> 16)).toNat = (m.toNat >>> 16) &&& 0xFFFF
-  rw [BitVec.toNat_setWidth, BitVec.toNat_ushiftRight, show (0xFFFF : Nat) = 2 ^ 16 - 1 from rfl, Nat.and_two_pow_sub_one_eq_mod]
+  first
+  | tie_rfl
+  | tie_budget 200000 (
+      show (BitVec.setWidth 16 (m >>> 16)).toNat = (m.toNat >>> 16) &&& 0xFFFF
+      rw [BitVec.toNat_setWidth, BitVec.toNat_ushiftRight, show (0xFFFF : Nat) = 2 ^ 16 - 1 from rfl, Nat.and_two_pow_sub_one_eq_mod])
+  | tie_tac
 
 end Clemens
